@@ -436,3 +436,21 @@ M("ref1-root-312", "C20", LL, "    if sys.version_info >= (3, 11) and isinstance
 M("ref1-root-always", "C20", LL, "    if sys.version_info >= (3, 11) and isinstance(\n        origin, (types.GeneratorType", "    if sys.version_info >= (3, 9) and isinstance(\n        origin, (types.GeneratorType", "REF-1")
 M("ref1-exit-only", "C20", LL, '        if isinstance(referent, types.MethodType) and referent.__func__.__name__ in (\n            "__exit__",\n            "__aexit__",\n        ):', '        if isinstance(referent, types.MethodType) and referent.__func__.__name__ in (\n            "__exit__",\n        ):', "REF-1")
 M("c20-exi1-prepend", "C20", LL, "        ret.append(Context(obj=None, is_async=exiting.is_async, is_exiting=True))", "        ret.insert(0, Context(obj=None, is_async=exiting.is_async, is_exiting=True))", "EXI-1")
+
+
+# ---------------------------------------------------------------- independently written changes (patches)
+import glob as _glob
+import json as _json
+_V = _os.path.dirname(_os.path.dirname(_os.path.abspath(__file__)))
+# behaviour-preserving edits written by sub-agents that knew nothing of the checker: must never be reported as violations
+from .props import PROPS as _PROPS
+for _d in sorted(_glob.glob(_os.path.join(_V, "twins", "*", "patch.diff"))):
+    _id = _os.path.basename(_os.path.dirname(_d))
+    for _p in sorted(_PROPS):
+        VARIANTS.append(dict(id=f"twin/{_id}", prop=_p, patch=_d, expect=None, kind="twin"))
+# property-breaking changes written by sub-agents: must be reported by the checks recorded in their meta.json
+for _m in sorted(_glob.glob(_os.path.join(_V, "seeded", "*", "meta.json"))):
+    _meta = _json.load(open(_m))
+    for _p, _v in _meta["detected_by"].items():
+        if _p in _PROPS:
+            VARIANTS.append(dict(id=f"seeded/{_meta['id']}", prop=_p, patch=_os.path.join(_os.path.dirname(_m), "patch.diff"), expect=_v["rules"], kind="mutant"))
